@@ -587,12 +587,28 @@ class Run:
         if self.interposer:
             self.interposer.yield_hook = sched.yield_point
         CoopLock.current_sched = sched
+        log0 = len(self.interposer.log) if self.interposer else 0
         try:
             errors = sched.run([mk(i, b) for i, b in enumerate(st['branches'])])
         finally:
             CoopLock.current_sched = None
             if self.interposer:
                 self.interposer.yield_hook = old_hook
+        # mechanism-level observation (C09 / C14): a thread's error clean-up may take back the directories it
+        # created itself, never one that a sibling call of this `par` created
+        foreign_rm = []
+        if self.interposer:
+            made = {}
+            for rec in self.interposer.log[log0:]:
+                if rec['res'] != 'ok':
+                    continue
+                a0 = rec['args'][0] if rec['args'] else ''
+                if rec['call'] in ('mkdir', 'makedirs'):
+                    made.setdefault(a0, rec['thread'])
+                elif rec['call'] == 'rmdir' and a0 in made and made[a0] != rec['thread']:
+                    foreign_rm.append([rec['thread'], made[a0], a0[-60:]])
+        if foreign_rm:      # placed before the calls of the `par`, so that it is judged whatever they did
+            self.ev(ev='foreign_rmdir', what=foreign_rm[:3])
 
         def key(block):
             ends = [e for e in block if e['ev'] in ('bf_end', 'sb_end')]
